@@ -22,16 +22,24 @@ def run(M, rep, tier, only=None):
             rep.bad(rid, "File." + nm, "required mechanism not found")
             continue
         badp = None
+        late_write = [None]
         paths = ctx.paths(f, "File")
         for p in paths:
             hit = [e for e in p.events if e.kind == "raw" and e.op == need and e.recv is not None
                    and e.recv.t == ("attr", ("self",), "_h5file")]
             if p.normal and not hit:
                 badp = p
+            if p.normal and hit and nm == "flush":
+                late = [e for e in p.events if e.idx > hit[-1].idx and ctx.fx.is_write(e)]
+                if late:
+                    badp = p
+                    late_write[0] = late[0]
         if not any(p.normal for p in paths):
             rep.bad(rid, "File." + nm, "File.%s never returns normally" % nm, site=f.file)
         else:
-            rep.check(rid, "File." + nm, badp is None, "a normal path of File.%s does not call h5py %s on the file handle" % (nm, need),
+            rep.check(rid, "File." + nm, badp is None, ("File.flush writes (%s) after the h5py flush: what it wrote is not on disk when flush "
+                      "returns" % late_write[0].brief()[:80]) if late_write[0] is not None else
+                      "a normal path of File.%s does not call h5py %s on the file handle" % (nm, need),
                       site=f.file + ":%d" % f.node.lineno, detail=describe_path(badp) if badp else None)
     # R3: no write-back layer (re-uses the C02 rules; reported under C17 ids)
     class Sub:
